@@ -109,6 +109,9 @@ VALUES = ['0', '1', '-1', '2', '7', '-3', '10**20', '0.0', '1.5', '-2.5', '3.0',
           'set()', '{1, 2}', "{'a'}", 'frozenset({1})', 'range(3)', 'None', 'Vec(3)', 'Vec(0)', 'Plain()', 'Coin(5)', 'Coin(0)', 'Color.RED', 'Color.BLUE', 'Masked()', '[1.5, None]',
           "'ab' * 3", '255', '1e300', '-0.0']
 
+CLASSES = ['int', 'str', 'bool', 'float', 'list', 'object', 'Vec', 'Plain', 'Color', '(int, str)', '(Vec, bool)', 'type(None)']
+KEYS = ['slice(0, 2)', 'slice(None, None, -1)', 'slice(1, None)']
+
 BINARY = {
     'add': operator.add, 'sub': operator.sub, 'mul': operator.mul, 'truediv': operator.truediv,
     'floordiv': operator.floordiv, 'mod': operator.mod, 'pow': operator.pow, 'lshift': operator.lshift,
@@ -131,6 +134,7 @@ INPLACE = {'iadd': _inplace(operator.iadd), 'isub': _inplace(operator.isub), 'im
 IMMUTABLE = (int, float, complex, str, bytes, tuple, bool, frozenset, type(None), range)
 # container-style operations: proxy is the container ('left') or container and operand ('both')
 CONTAINER = {
+    'isinstance_cls': lambda x, y: isinstance(x, y),
     'contains': lambda x, y: y in x,
     'getitem': lambda x, y: x[y],
     'pow3': lambda x, y: pow(x, y, 7),
@@ -372,6 +376,15 @@ def table(tier):
                 if place == 'both' and op in ('isinstance_other', 'format_spec'):
                     continue   # type(proxy) / a C-level "must be str" check cannot see through any proxy: not the proxied operand
                 yield {'op': op, 'a': a, 'b': b, 'place': place}
+    # a class (or tuple of classes) that student code handed back, as the second argument of isinstance / issubclass
+    for a, b in itertools.product(VALUES, CLASSES):
+        for place in ('right', 'both'):
+            yield {'op': 'isinstance_cls', 'a': a, 'b': b, 'place': place}
+    # a slice object that student code built, as the index
+    # (as the index of a real list it meets a C-level PySlice_Check that no proxy object can pass: only the proxied container)
+    for a, b in itertools.product(VALUES, KEYS):
+        for place in ('left', 'both'):
+            yield {'op': 'getitem', 'a': a, 'b': b, 'place': place}
     for op in UNARY:
         for a in VALUES:
             yield {'op': op, 'a': a, 'place': 'left'}
